@@ -18,6 +18,15 @@ args (replay file):
   ('uniq', items)
 item tuples: ('A', ver, value) ('SA', ver, value) ('N', ver, value, plen) ('SN', ver, value, plen)
              ('R', ver, lo, hi)
+raw cases only (op merge_raw: the model does the IPNetwork(x) coercion itself, Model/Coerce.lean):
+             ('SM', ver, value, plen) 'addr/netmask'   ('SH', ver, value, plen) 'addr/hostmask' (0 < plen < width)
+             ('SP', 4, value, plen) partial IPv4 'a.b/plen' (trailing zero octets dropped)
+             ('SZ', 4, value, plen) zero-padded octets '010.001.000.000/plen'
+             ('SW', ver, value, plen) blanks round the parts, ' a.b.c.d / plen ' (IPv4: read through
+                                      expand_partial_address / int(); IPv6: round the prefix only)
+             ('I', ver, value) a bare int (cidr_merge -> IPNetwork(int) -> TypeError)
+             ('SX', ver, text) a text no constructor accepts (AddrFormatError)
+  merge_raw [item,...]   item = S:<hex of utf-8> | I:<int> | A:ver:value | N:ver:value:plen | R:ver:lo:hi
 """
 import ipaddress as _stdip
 import itertools as _itertools
@@ -38,7 +47,10 @@ RULE = ('intervals [lo,hi]: every trailing-zero class 0..width of lo and of hi+1
         'hot windows per family (bottom, top, 2^32 boundary of IPv6, random): recursive sibling partitions, nested, '
         'duplicates, adjacent at last+1, one apart at last+2, overlapping ranges, whole space, IPv6 items whose integer '
         'equals an IPv4 last+1, every list also re-merged shuffled+duplicated and merged twice; valid IPv4 globs of '
-        'every shape; iter_unique_ips on unions of <= 4096 addresses. Expected lists come from an integer-only greedy '
+        'every shape; iter_unique_ips on unions of <= 4096 addresses; ~30% of the cidr_merge lists go to the model with '
+        'their strings / IPAddress objects / ints uncoerced (op merge_raw), with netmask, hostmask, partial and '
+        'zero-padded IPv4 spellings and, in a tenth of them, one bare int or unparsable text (must raise). '
+        'Expected lists come from an integer-only greedy '
         'reference. non-trivial = distinct case whose implementation output is not an error')
 
 _M = {4: (1 << 32) - 1, 6: (1 << 128) - 1}
@@ -91,12 +103,18 @@ def _blk_last(ver, v, p):
     return ((v >> h) << h) + (1 << h) - 1
 
 
+_NETKINDS = ('N', 'SN', 'SM', 'SH', 'SP', 'SZ', 'SW')
+_BADKINDS = ('I', 'SX')
+
+
 def _item_iv(it):
     k, ver = it[0], it[1]
     if k in ('A', 'SA'):
         return ver, it[2], it[2]
-    if k in ('N', 'SN'):
+    if k in _NETKINDS:
         return ver, _blk_first(ver, it[2], it[3]), _blk_last(ver, it[2], it[3])
+    if k != 'R':
+        raise ValueError(it)
     return ver, it[2], it[3]
 
 
@@ -124,19 +142,58 @@ def _item_tok(it):
     return 'R:%d:%d:%d' % (ver, it[2], it[3])
 
 
+def _text(it):
+    """the string spelling of a string-kind item, written here from its integers"""
+    k, ver = it[0], it[1]
+    if k == 'SA':
+        return _fmt(ver, it[2])
+    if k == 'SX':
+        return it[2]
+    v, p = it[2], it[3]
+    host = (1 << (W[ver] - p)) - 1
+    if k == 'SN':
+        return '%s/%d' % (_fmt(ver, v), p)
+    if k == 'SM':
+        return '%s/%s' % (_fmt(ver, v), _fmt(ver, _M[ver] ^ host))
+    if k == 'SH':
+        return '%s/%s' % (_fmt(ver, v), _fmt(ver, host))
+    if k == 'SW':
+        return (' %s / %d ' if ver == 4 else '%s/ %d ') % (_fmt(ver, v), p)
+    octs = [v >> 24, (v >> 16) & 255, (v >> 8) & 255, v & 255]
+    if k == 'SP':
+        while len(octs) > 1 and octs[-1] == 0:
+            octs.pop()
+        return '%s/%d' % ('.'.join('%d' % o for o in octs), p)
+    if k == 'SZ':
+        return '%s/%d' % ('.'.join('%03d' % o for o in octs), p)
+    raise ValueError(it)
+
+
+def _raw_tok(it):
+    """merge_raw token: the argument as the caller wrote it, coercion left to the model"""
+    k, ver = it[0], it[1]
+    if k == 'A':
+        return 'A:%d:%d' % (ver, it[2])
+    if k == 'I':
+        return 'I:%d' % it[2]
+    if k == 'N':
+        return 'N:%d:%d:%d' % (ver, it[2], it[3])
+    if k == 'R':
+        return 'R:%d:%d:%d' % (ver, it[2], it[3])
+    return 'S:' + _text(it).encode('utf-8').hex()
+
+
 def _obj(it):
     k, ver = it[0], it[1]
     if k == 'A':
         return IPAddress(it[2], ver)
-    if k == 'SA':
-        return _fmt(ver, it[2])
     if k == 'N':
         return IPNetwork((it[2], it[3]), version=ver)
-    if k == 'SN':
-        return '%s/%d' % (_fmt(ver, it[2]), it[3])
     if k == 'R':
         return IPRange(IPAddress(it[2], ver), IPAddress(it[3], ver))
-    raise ValueError(it)
+    if k == 'I':
+        return it[2]
+    return _text(it)
 
 
 def _src(it):
@@ -190,10 +247,47 @@ def _perm(rng, n):
     return tuple(idx)
 
 
-def _merge_case(rng, items, scn):
+_BAD_TEXTS = ('', 'bad', '1.2.3.4/33', '1.2.3.4/', '1.2.3.256', '1.2.3.4/255.0.255.0', '::1/129', '1.2.3.4//8', ':::',
+              '1.2.3.4/-1', '1.2.3.4.5', 'fe80::1::2/64', '::g/8', '10.0.0.0/0.255.0.255', '/8')
+
+
+def _respell(rng, it):
+    """another spelling of the same network (raw cases)"""
+    k, ver = it[0], it[1]
+    if k not in ('N', 'SN') or rng.random() < (0.65 if k == 'N' else 0.4):
+        return it
+    v, p = it[2], it[3]
+    kinds = ['SN', 'SM', 'SW']
+    if 0 < p < W[ver]:
+        kinds.append('SH')
+    if ver == 4:
+        kinds.append('SZ')
+        if v & 255 == 0:
+            kinds += ['SP', 'SP']
+    return (rng.choice(kinds), ver, v, p)
+
+
+def _merge_case(rng, items, scn, raw=None):
+    items = list(items)
+    if raw is None:
+        raw = rng.random() < 0.3
+    if not raw:
+        items = tuple(items)
+        return Case('merge ' + plist(_item_tok(it) for it in items), 'merge/%s/%s' % (scn, _fam(items)),
+                    ('merge', items, _perm(rng, len(items))))
+    items = [_respell(rng, it) for it in items]
+    bad = rng.random() < 0.1
+    if bad:
+        for _ in range(rng.choice((1, 1, 2))):
+            ver = rng.choice((4, 6))
+            if rng.random() < 0.5:
+                x = ('I', ver, rng.choice((0, 1, 5, _M[4], _M[4] + 1, rand_value(rng, W[ver]))))
+            else:
+                x = ('SX', ver, rng.choice(_BAD_TEXTS))
+            items.insert(rng.randrange(len(items) + 1), x)
     items = tuple(items)
-    return Case('merge ' + plist(_item_tok(it) for it in items), 'merge/%s/%s' % (scn, _fam(items)),
-                ('merge', items, _perm(rng, len(items))))
+    return Case('merge_raw ' + plist(_raw_tok(it) for it in items),
+                'merge_raw/%s/%s' % ('bad' if bad else scn, _fam(items)), ('merge', items, _perm(rng, len(items))))
 
 
 def _r2c_case(ver, e1, e2):
@@ -236,12 +330,20 @@ def corpus():
         _rcidrs_case(4, 0, m4),
         _rcidrs_case(6, 0, w6),
         _rcidrs_case(6, 1, w6),
-        _merge_case(r, [('SN', 4, 0xC0000200, 25), ('SN', 4, 0xC0000280, 25)], 'sib'),
-        _merge_case(r, [], 'hot'),
-        _merge_case(r, [('SN', 4, m4 - 1, 31), ('SA', 6, 0)], 'xfam'),         # v4 top block plus '::'
-        _merge_case(r, [('A', 4, m4), ('A', 6, 1 << 32), ('A', 6, 0)], 'xfam'),
-        _merge_case(r, [('N', 4, 0xC0000205, 24), ('R', 4, 0xC0000300, 0xC00003FF), ('A', 4, 0xC0000400)], 'adj'),
-        _merge_case(r, [('N', 4, 0, 0), ('N', 6, 77, 0), ('A', 4, 9)], 'whole'),
+        _merge_case(r, [('SN', 4, 0xC0000200, 25), ('SN', 4, 0xC0000280, 25)], 'sib', raw=False),
+        _merge_case(r, [], 'hot', raw=False),
+        _merge_case(r, [('SN', 4, m4 - 1, 31), ('SA', 6, 0)], 'xfam', raw=False),         # v4 top block plus '::'
+        _merge_case(r, [('A', 4, m4), ('A', 6, 1 << 32), ('A', 6, 0)], 'xfam', raw=False),
+        _merge_case(r, [('N', 4, 0xC0000205, 24), ('R', 4, 0xC0000300, 0xC00003FF), ('A', 4, 0xC0000400)], 'adj', raw=False),
+        _merge_case(r, [('N', 4, 0, 0), ('N', 6, 77, 0), ('A', 4, 9)], 'whole', raw=False),
+        # the coercion glue through the model: every spelling, an int (TypeError), order of the first error
+        _merge_case(r, [('SM', 4, 0xC0000205, 25), ('SH', 4, 0xC0000280, 25), ('A', 4, 0xC0000300),
+                        ('SP', 4, 0x0A000000, 8), ('SZ', 4, 0x0A010203, 32), ('SA', 6, 1), ('R', 6, 2, 3),
+                        ('SW', 4, 0x0B000001, 8), ('SW', 6, 1 << 64, 64)], 'forms', raw=True),
+        _merge_case(r, [('SN', 4, 0xC0000200, 25), ('I', 4, 5)], 'int', raw=True),
+        _merge_case(r, [('I', 4, 5), ('SX', 4, 'bad')], 'int', raw=True),
+        _merge_case(r, [('SX', 4, 'bad'), ('I', 4, 5)], 'int', raw=True),
+        _merge_case(r, [('SX', 4, '1.2.3.4/33'), ('N', 4, 5, 32)], 'int', raw=True),
         _glob_case('*.*.*.*'),
         _glob_case('192.0.2.1'),
         _glob_case('192.0.2.0-31'),
@@ -776,6 +878,12 @@ def oracle(c, got):
     a = c.args
     if a[0] == 'merge':
         items, perm = a[1], a[2]
+        if any(it[0] in _BADKINDS for it in items):
+            # a bare int / an unparsable text is not an address or network: the call must raise, whatever else
+            # is in the list (which exception is fixed by the correspondence with the model, not here)
+            if not got.startswith('!'):
+                return 'cidr_merge accepted a list with a bare int / unparsable text and returned %s' % got[:300]
+            return None
         ivs = [_item_iv(it) for it in items]
         exp = _exp_blocks(ref_merge(ivs))
         if got != exp:
